@@ -13,6 +13,7 @@
   Verdict: `specfail` when a law of the property (Spec/C11.lean) is violated by the observed
   behaviour, `diff` when the model predicts something else, `ok` otherwise.
 -/
+import LiquidModel.Model.ArrFilters
 import LiquidModel.Drv.Codec
 import LiquidModel.Spec.C11
 namespace Liquid.Drv.C11
@@ -151,6 +152,9 @@ def nilSafeCmp (cmp : V → V → Option Ordering) (a b : V) : Ordering :=
   if a.isNil && b.isNil then .eq
   else if a.isNil then .gt
   else if b.isNil then .lt
+  -- after the `fix:` commit for D8: different kinds are ordered by `kind_rank` first
+  else if Arr.kindRank a < Arr.kindRank b then .lt
+  else if Arr.kindRank b < Arr.kindRank a then .gt
   else (cmp a b).getD .eq
 
 /-- expected output of the fixed C11 template (see harness/src/c11.rs `TEMPLATE`) on data `d` -/
